@@ -235,6 +235,23 @@ func (c *Check) Class(class string, sample func() any) {
 	c.mu.Unlock()
 }
 
+// CaseOnce is Case without the re-runs: for oracles whose evidence is produced
+// once per process (the race detector reports a given race a single time).
+func (c *Check) CaseOnce(id, panicKey string, f func(x *Ctx)) {
+	if c.Only != "" {
+		if id != c.Only {
+			return
+		}
+		c.p.OnlyHit = true
+	}
+	x := c.runOnce(id, panicKey, f)
+	c.mu.Lock()
+	defer c.mu.Unlock()
+	for _, fl := range x.fails {
+		c.addViolation(&violation{failure: fl, CaseID: id, Count: 1})
+	}
+}
+
 // Case runs one self-contained, deterministic case. A panic inside is an
 // oracle failure with key panicKey+"/panic". A failing case is re-run 4 more
 // times and must fail every time before it is believed.
